@@ -30,7 +30,9 @@ type Env struct {
 	Instr       *Instrumented
 	env         []string
 	seq         int64
-	mu          sync.Mutex
+	// noDeviations: only the baselines of exploration 1 are run (C09_ONLY=repetition)
+	noDeviations bool
+	mu           sync.Mutex
 }
 
 func (e *Env) goEnvList() []string {
